@@ -51,7 +51,8 @@ def _run_one(args):
         ctx = core.Ctx(timeout_ms=opts.get("solver_timeout_ms", 60000),
                        max_paths=opts.get("max_paths", 3_000_000),
                        record_queries=opts.get("record_queries", 0),
-                       seed=opts.get("seed", 0) + hash(json.dumps(shape, sort_keys=True)) % 1000003)
+                       seed=opts.get("seed", 0) + hash(json.dumps(shape, sort_keys=True)) % 1000003,
+                       prefix=shape.get("_split", ()))
         signal.signal(signal.SIGALRM, _alarm)
         signal.alarm(int(opts.get("instance_timeout_s", 3000)))
         try:
@@ -132,7 +133,14 @@ def run_property(prop, harnesses, tier, seed, jobs=None, opts=None, out=sys.stdo
         mod = importlib.import_module(hn)
         mods[hn] = mod
         for shape in mod.instances(tier, prop):
-            tasks.append((hn, shape, dict(opts, **getattr(mod, "OPTS", {}))))
+            nb = shape.pop("_splitbits", 0)
+            if nb:
+                import itertools as _it
+                for bits in _it.product((0, 1), repeat=nb):
+                    tasks.append((hn, dict(shape, _split=list(bits), _cost=shape.get("_cost", 0) / 2 ** nb),
+                                  dict(opts, **getattr(mod, "OPTS", {}))))
+            else:
+                tasks.append((hn, shape, dict(opts, **getattr(mod, "OPTS", {}))))
     # big instances first
     tasks.sort(key=lambda t: -t[1].get("_cost", 0))
     results = []
@@ -164,6 +172,17 @@ def run_property(prop, harnesses, tier, seed, jobs=None, opts=None, out=sys.stdo
         if r["samples"] and len(samples) < 4:
             samples.append({"shape": r["shape"], "module": r["module"], **r["samples"][0]})
         recorded.extend(r.get("recorded", []))
+    if os.environ.get("SYMX_TIMES"):
+        byshape = {}
+        for r_ in results:
+            sh_ = {k: v for k, v in r_["shape"].items() if not k.startswith("_")}
+            key = json.dumps(sh_, sort_keys=True)
+            byshape.setdefault(key, [0.0, 0, 0.0])
+            byshape[key][0] += r_["wall_s"]
+            byshape[key][1] += r_.get("paths", 0)
+            byshape[key][2] = max(byshape[key][2], r_["wall_s"])
+        for k, v in sorted(byshape.items(), key=lambda kv: -kv[1][0])[:25]:
+            print(f"  TIME total={v[0]:.1f}s max={v[2]:.1f}s paths={v[1]} {k}", file=out)
     # coverage witnesses (vacuity guard)
     missing = []
     for hn, mod in mods.items():
